@@ -45,8 +45,9 @@ def run(ctx):
                              bound='syntax / PEP 8 listing of text %d with a complete listing of text b after visited leaf 0..23' % a,
                              realised='text b, switch point, which listing'))
     C.append(xh.Cond(H, 'interleaved_tokenizers', timeout=400 if q else 2400, path_timeout=60,
-                     extra_pre=['vi == 1', 'b == (a + 3) %% %d' % N] if q else ['vi == 1'],
-                     bound='two token generators advanced alternately under all 256 8-bit schedules', realised='texts, schedule'))
+                     extra_pre=['vi == 1', 'b == (a + 3) %% %d' % N, 's < 32', 'a % 3 == 0'] if q else ['vi == 1'],
+                     bound='two token generators advanced alternately under %s schedules' % ('32 5-bit' if q else 'all 256 8-bit'),
+                     realised='texts, schedule'))
     C.append(xh.Cond(H, 'loading', timeout=200, path_timeout=60, bound='custom-path grammar and version grammar loaded in both orders',
                      realised='order, version'))
     xh.run_conditions(ctx, C)
